@@ -715,7 +715,8 @@ class FormalContext:
 
     def to_bin_attr_extents(self) -> Iterator[Tuple[str, fbarray]]:
         for i, m in enumerate(self.attribute_names):
-            extent = fbarray(self.data[:, i])
+            column = self.data[:, i]
+            extent = column if isinstance(column, fbarray) else fbarray([bool(v) for v in column])
             yield m, extent
 
     @property
